@@ -87,6 +87,11 @@ Section TmEnv.
   Lemma tmo_keeps {A} (p : cfg -> A) c v : (forall c t, p (set_tmo c t) = p c) -> p (tm_env_tmo c v) = p c.
   Proof. intros H. unfold tm_env_tmo. destruct (tm_getenv v); [destruct (atoi b)|]; auto. Qed.
 
+  Lemma insec_keeps {A} (p : cfg -> A) c v : (forall c i, p (set_insec c i) = p c) -> p (tm_env_insec c v) = p c.
+  Proof. intros H. unfold tm_env_insec. destruct (tm_getenv v); auto. Qed.
+  Lemma gen_ep_conn c u : c_conn (tm_gen_endpoint pr sig c u) = c_conn c. Proof. destruct pr; reflexivity. Qed.
+  Lemma spec_ep_conn c u : c_conn (tm_spec_endpoint pr c u) = c_conn c. Proof. destruct pr; reflexivity. Qed.
+
   (** The documented readings of the trace / metric family, on trimmed values. *)
   Definition tm_rd_tmo (v : bytes) : option Z := rd_timeout v.
 
@@ -108,7 +113,7 @@ Section TmEnv.
     c_tmo (tm_apply_env pr sig e c) = resolve None (rd_timeout (spec_tmo e)) (rd_timeout (gen_tmo e)) (c_tmo c).
   Proof.
     intros T1 T2. unfold tm_apply_env. rewrite (env_tmo_step _ _ T2), (env_tmo_step _ _ T1).
-    rewrite !comp_keeps, !hdrs_keeps by reflexivity.
+    rewrite !comp_keeps, !hdrs_keeps, !insec_keeps by reflexivity.
     rewrite (url_keeps c_tmo) by apply spec_ep_tmo. rewrite (url_keeps c_tmo) by apply gen_ep_tmo.
     destruct (rd_timeout (spec_tmo e)), (rd_timeout (gen_tmo e)); reflexivity.
   Qed.
@@ -118,7 +123,7 @@ Section TmEnv.
   Proof.
     intros T1 T2. unfold tm_apply_env. rewrite !tmo_keeps by reflexivity.
     rewrite (env_comp_step _ _ T2), (env_comp_step _ _ T1).
-    rewrite !hdrs_keeps by reflexivity.
+    rewrite !hdrs_keeps, !insec_keeps by reflexivity.
     rewrite (url_keeps c_gzip) by apply spec_ep_gzip. rewrite (url_keeps c_gzip) by apply gen_ep_gzip.
     destruct (doc_comp (spec_comp e)), (doc_comp (gen_comp e)); reflexivity.
   Qed.
@@ -127,7 +132,7 @@ Section TmEnv.
     c_hdrs (tm_apply_env pr sig e c) = resolve None (doc_headers (spec_hdr e)) (doc_headers (gen_hdr e)) (c_hdrs c).
   Proof.
     intros T1 T2. unfold tm_apply_env. rewrite !tmo_keeps by reflexivity. rewrite !comp_keeps by reflexivity.
-    rewrite (env_hdrs_step _ _ T2), (env_hdrs_step _ _ T1).
+    rewrite (env_hdrs_step _ _ T2), (env_hdrs_step _ _ T1). rewrite !insec_keeps by reflexivity.
     rewrite (url_keeps c_hdrs) by apply spec_ep_hdrs. rewrite (url_keeps c_hdrs) by apply gen_ep_hdrs.
     destruct (doc_headers (spec_hdr e)), (doc_headers (gen_hdr e)); reflexivity.
   Qed.
@@ -355,43 +360,143 @@ Lemma tm_env_host_field pr sig e c : trimmed (gen_ep e) = true -> trimmed (spec_
   (pr = PGrpc -> grpc_target_plain (spec_ep e) = true /\ grpc_target_plain (gen_ep e) = true) ->
   c_host (tm_apply_env pr sig e c) = resolve None (rd_host (spec_ep e)) (rd_host (gen_ep e)) (c_host c).
 Proof.
-  intros T1 T2 G. unfold tm_apply_env. rewrite !tmo_keeps, !comp_keeps, !hdrs_keeps by reflexivity.
+  intros T1 T2 G. unfold tm_apply_env. rewrite !tmo_keeps, !comp_keeps, !hdrs_keeps, !insec_keeps by reflexivity.
   rewrite env_host_spec, env_host_gen; auto; intro; now apply G.
 Qed.
 Lemma tm_env_path_field sig e c : trimmed (gen_ep e) = true -> trimmed (spec_ep e) = true ->
   c_path (tm_apply_env PHttp sig e c) = resolve None (rd_path_specific (spec_ep e)) (tm_gen_path sig (gen_ep e)) (c_path c).
 Proof.
-  intros T1 T2. unfold tm_apply_env. rewrite !tmo_keeps, !comp_keeps, !hdrs_keeps by reflexivity.
+  intros T1 T2. unfold tm_apply_env. rewrite !tmo_keeps, !comp_keeps, !hdrs_keeps, !insec_keeps by reflexivity.
   rewrite env_path_spec, env_path_gen by assumption.
   destruct (rd_path_specific (spec_ep e)), (tm_gen_path sig (gen_ep e)); reflexivity.
 Qed.
 
-Lemma tm_config_field {A} (p : cfg -> A) pr sig opts e : (forall c x, p (set_path c x) = p c) ->
+Lemma use_conn_keeps {A} (p : cfg -> A) c :
+  (forall c x, p (set_host c x) = p c) -> (forall c x, p (set_gzip c x) = p c) -> (forall c x, p (set_insec c x) = p c) ->
+  p (use_conn c) = p c.
+Proof. intros H1 H2 H3. unfold use_conn. destruct (c_conn c); [now rewrite H3, H2, H1 | reflexivity]. Qed.
+
+Lemma tm_config_field {A} (p : cfg -> A) pr sig opts e :
+  (forall c x, p (set_path c x) = p c) -> (forall c, p (use_conn c) = p c) ->
   p (tm_config pr sig opts e) = p (fold_left tm_apply_opt opts (tm_apply_env pr sig e (tm_default pr sig))).
-Proof. intros H. unfold tm_config. destruct pr; auto. Qed.
+Proof. intros H H'. unfold tm_config. destruct pr; auto. Qed.
+
+(** the user's connection *)
+Lemma last_some_lift {A} (g : opt -> option A) l :
+  sel (last_some (fun o => option_map Some (g o)) l) None = last_some g l.
+Proof.
+  rewrite !last_some_fold.
+  assert (G : forall l a b, sel a None = b ->
+              sel (fold_left (keep (fun o => option_map Some (g o))) l a) None = fold_left (keep g) l b).
+  { clear l. induction l as [|o l IH]; intros a b H; cbn; [exact H|]. apply IH. unfold keep.
+    destruct (g o); cbn; [reflexivity | exact H]. }
+  now apply G.
+Qed.
+Lemma tm_opt_conn c o : c_conn (tm_apply_opt c o) = sel (option_map Some (opt_conn o)) (c_conn c).
+Proof. destruct o; cbn; try reflexivity. destruct (parse_url u); reflexivity. Qed.
+Lemma tm_env_conn pr sig e c : c_conn (tm_apply_env pr sig e c) = c_conn c.
+Proof.
+  unfold tm_apply_env. rewrite !tmo_keeps, !comp_keeps, !hdrs_keeps, !insec_keeps by reflexivity.
+  rewrite (url_keeps c_conn) by apply spec_ep_conn. now rewrite (url_keeps c_conn) by apply gen_ep_conn.
+Qed.
+Lemma tm_fold_conn pr sig opts e :
+  c_conn (fold_left tm_apply_opt opts (tm_apply_env pr sig e (tm_default pr sig))) = last_some opt_conn opts.
+Proof.
+  rewrite (fold_opts_field c_conn (fun o => option_map Some (opt_conn o)) tm_opt_conn), tm_env_conn.
+  apply last_some_lift.
+Qed.
+
+(** transport security *)
+Lemma tm_opt_insec c o : c_insec (tm_apply_opt c o) = sel (opt_insecure o) (c_insec c).
+Proof. destruct o; cbn; try reflexivity. destruct (parse_url u); reflexivity. Qed.
+Lemma scheme_plain_insecure u : scheme_plain u = true -> scheme_insecure u = url_insecure u.
+Proof.
+  unfold scheme_plain, scheme_insecure, url_insecure. intros H. apply orb_true_iff in H as [H | H].
+  - rewrite H. apply bytes_eqb_eq in H. now rewrite H.
+  - rewrite H. apply bytes_eqb_eq in H. now rewrite H.
+Qed.
+Lemma env_insec_gen pr sig c v : trimmed v = true -> env_scheme_ok v = true ->
+  c_insec (tm_env_url (tm_gen_endpoint pr sig) c v) = sel (rd_insecure v) (c_insec c).
+Proof.
+  intros T G. unfold tm_env_url, rd_insecure, env_scheme_ok, rd_url in *. rewrite (tm_getenv_trimmed _ T).
+  destruct (present v); [|reflexivity]. destruct (parse_url v) as [u|]; [|reflexivity].
+  cbn [option_map sel]. rewrite <- (scheme_plain_insecure _ G). destruct pr; reflexivity.
+Qed.
+Lemma env_insec_spec pr c v : trimmed v = true -> env_scheme_ok v = true ->
+  c_insec (tm_env_url (tm_spec_endpoint pr) c v) = sel (rd_insecure v) (c_insec c).
+Proof.
+  intros T G. unfold tm_env_url, rd_insecure, env_scheme_ok, rd_url in *. rewrite (tm_getenv_trimmed _ T).
+  destruct (present v); [|reflexivity]. destruct (parse_url v) as [u|]; [|reflexivity].
+  cbn [option_map sel]. rewrite <- (scheme_plain_insecure _ G). destruct pr; reflexivity.
+Qed.
+Lemma tm_env_insec_nil c : tm_env_insec c [] = c.
+Proof. reflexivity. Qed.
+Lemma tm_env_insec_field pr sig e c : trimmed (gen_ep e) = true -> trimmed (spec_ep e) = true ->
+  env_scheme_ok (spec_ep e) = true -> env_scheme_ok (gen_ep e) = true -> spec_insec e = [] -> gen_insec e = [] ->
+  c_insec (tm_apply_env pr sig e c) = resolve None (rd_insecure (spec_ep e)) (rd_insecure (gen_ep e)) (c_insec c).
+Proof.
+  intros T1 T2 G1 G2 N1 N2. unfold tm_apply_env. rewrite !tmo_keeps, !comp_keeps, !hdrs_keeps by reflexivity.
+  rewrite N1, N2, !tm_env_insec_nil. rewrite env_insec_spec, env_insec_gen by assumption.
+  destruct (rd_insecure (spec_ep e)), (rd_insecure (gen_ep e)); reflexivity.
+Qed.
 
 Lemma env_trimmed_inv e : env_trimmed e = true ->
   trimmed (gen_ep e) = true /\ trimmed (spec_ep e) = true /\ trimmed (gen_hdr e) = true /\ trimmed (spec_hdr e) = true /\
   trimmed (gen_comp e) = true /\ trimmed (spec_comp e) = true /\ trimmed (gen_tmo e) = true /\ trimmed (spec_tmo e) = true.
 Proof. unfold env_trimmed. intros H. repeat (apply andb_true_iff in H as [H ?]). tauto. Qed.
 
+Lemma schemes_ok_inv opts e : schemes_ok opts e = true ->
+  forallb opt_scheme_ok opts = true /\ env_scheme_ok (spec_ep e) = true /\ env_scheme_ok (gen_ep e) = true /\
+  spec_insec e = [] /\ gen_insec e = [].
+Proof.
+  unfold schemes_ok. intros H. repeat (apply andb_true_iff in H as [H ?]).
+  repeat split; auto; [destruct (spec_insec e) | destruct (gen_insec e)]; auto; discriminate.
+Qed.
+
 (** The trace / metric exporters: timeout and host follow the uniform reading; compression and
     headers follow the documented lenient reading. *)
 Lemma tm_settings pr sig opts e : env_trimmed e = true ->
   let c := tm_config pr sig opts e in
   c_tmo c = exp_tmo opts e /\
-  c_gzip c = resolve (last_some opt_gzip opts) (doc_comp (spec_comp e)) (doc_comp (gen_comp e)) false /\
+  c_gzip c = match user_conn pr opts with
+             | Some _ => false
+             | None => resolve (last_some opt_gzip opts) (doc_comp (spec_comp e)) (doc_comp (gen_comp e)) false
+             end /\
   c_hdrs c = resolve (last_some opt_hdrs opts) (doc_headers (spec_hdr e)) (doc_headers (gen_hdr e)) [] /\
   ((pr = PGrpc -> grpc_target_plain (spec_ep e) = true /\ grpc_target_plain (gen_ep e) = true) ->
-   c_host c = exp_host pr opts e).
+   c_host c = exp_host pr opts e) /\
+  (schemes_ok opts e = true -> c_insec c = exp_insecure pr opts e).
 Proof.
   intros T. destruct (env_trimmed_inv _ T) as (T1 & T2 & T3 & T4 & T5 & T6 & T7 & T8). cbn zeta.
-  rewrite !tm_config_field by reflexivity.
-  rewrite (fold_opts_field c_tmo opt_tmo tm_opt_tmo), (fold_opts_field c_gzip opt_gzip tm_opt_gzip),
-          (fold_opts_field c_hdrs opt_hdrs tm_opt_hdrs), (fold_opts_field c_host opt_host tm_opt_host).
-  rewrite tm_env_tmo_field, tm_env_gzip_field, tm_env_hdrs_field by assumption.
-  unfold exp_tmo, exp_host. rewrite !(resolve_sel (last_some _ opts)).
-  repeat split; try reflexivity. intros G. now rewrite tm_env_host_field.
+  rewrite !(tm_config_field c_tmo), !(tm_config_field c_hdrs)
+    by (try reflexivity; intros; now apply use_conn_keeps).
+  rewrite (fold_opts_field c_tmo opt_tmo tm_opt_tmo), (fold_opts_field c_hdrs opt_hdrs tm_opt_hdrs).
+  rewrite tm_env_tmo_field, tm_env_hdrs_field by assumption.
+  unfold exp_tmo. rewrite !(resolve_sel (last_some _ opts)).
+  split; [reflexivity|]. split; [|split; [reflexivity|]].
+  - (* compression *)
+    unfold tm_config, user_conn. destruct pr; cbn [c_gzip set_path].
+    + rewrite (fold_opts_field c_gzip opt_gzip tm_opt_gzip), tm_env_gzip_field by assumption.
+      cbv iota; rewrite ?(resolve_sel (last_some _ opts)); reflexivity.
+    + unfold use_conn. rewrite tm_fold_conn. destruct (last_some opt_conn opts); [reflexivity|].
+      rewrite (fold_opts_field c_gzip opt_gzip tm_opt_gzip), tm_env_gzip_field by assumption.
+      cbv iota; rewrite ?(resolve_sel (last_some _ opts)); reflexivity.
+  - split.
+    + (* host *)
+      intros G. unfold tm_config, exp_host, user_conn. destruct pr; cbn [c_host set_path].
+      * rewrite (fold_opts_field c_host opt_host tm_opt_host), tm_env_host_field by (auto; discriminate).
+        cbv iota; rewrite ?(resolve_sel (last_some _ opts)); reflexivity.
+      * unfold use_conn. rewrite tm_fold_conn. destruct (last_some opt_conn opts); [reflexivity|].
+        rewrite (fold_opts_field c_host opt_host tm_opt_host), tm_env_host_field by auto.
+        cbv iota; rewrite ?(resolve_sel (last_some _ opts)); reflexivity.
+    + (* transport security *)
+      intros S. destruct (schemes_ok_inv _ _ S) as (_ & S1 & S2 & N1 & N2).
+      unfold tm_config, exp_insecure, user_conn. destruct pr; cbn [c_insec set_path].
+      * rewrite (fold_opts_field c_insec opt_insecure tm_opt_insec), tm_env_insec_field by assumption.
+        cbv iota; rewrite ?(resolve_sel (last_some _ opts)); reflexivity.
+      * unfold use_conn. rewrite tm_fold_conn. destruct (last_some opt_conn opts); [reflexivity|].
+        rewrite (fold_opts_field c_insec opt_insecure tm_opt_insec), tm_env_insec_field by assumption.
+        cbv iota; rewrite ?(resolve_sel (last_some _ opts)); reflexivity.
 Qed.
 
 (** Well-formed values: the documented reading is the uniform one. *)
@@ -498,20 +603,46 @@ Qed.
 Lemma log_comp_gzip n : match log_comp n with Some g => g | None => false end = bytes_eqb n gzip_name.
 Proof. unfold log_comp. destruct (bytes_eqb n gzip_name); [reflexivity|]. now destruct (_ || _). Qed.
 
+Ltac log_opt := intros; match goal with |- context [log_apply_opt ?pr _ ?o] =>
+  destruct o; cbn; try reflexivity; unfold keep; cbn;
+  match goal with |- context [parse_url ?u] => destruct (parse_url u); [destruct pr|]; reflexivity | _ => idtac end end.
+
 Lemma log_opt_host pr s o : l_host (log_apply_opt pr s o) = keep opt_host (l_host s) o.
-Proof. destruct o; cbn; try reflexivity. unfold keep; cbn. destruct (parse_url u); reflexivity. Qed.
+Proof. log_opt. Qed.
 Lemma log_opt_path s o : l_path (log_apply_opt PHttp s o) = keep opt_path (l_path s) o.
 Proof. destruct o; cbn; try reflexivity. unfold keep; cbn. destruct (parse_url u); reflexivity. Qed.
 Lemma log_opt_hdrs pr s o : l_hdrs (log_apply_opt pr s o) = keep opt_hdrs (l_hdrs s) o.
-Proof. destruct o; cbn; try reflexivity. unfold keep; cbn. destruct (parse_url u); reflexivity. Qed.
+Proof. log_opt. Qed.
 Lemma log_opt_gzip pr s o : l_gzip (log_apply_opt pr s o) = keep opt_gzip (l_gzip s) o.
 Proof.
   destruct o; cbn; try reflexivity.
-  - unfold keep; cbn. destruct (parse_url u); reflexivity.
+  - unfold keep; cbn. destruct (parse_url u); [destruct pr|]; reflexivity.
   - unfold keep; cbn. now rewrite log_comp_gzip.
 Qed.
 Lemma log_opt_tmo pr s o : l_tmo (log_apply_opt pr s o) = keep opt_tmo (l_tmo s) o.
-Proof. destruct o; cbn; try reflexivity. unfold keep; cbn. destruct (parse_url u); reflexivity. Qed.
+Proof. log_opt. Qed.
+Lemma log_opt_conn pr s o : l_conn (log_apply_opt pr s o) = keep opt_conn (l_conn s) o.
+Proof. log_opt. Qed.
+Lemma insecure_from_scheme_plain prev u : scheme_plain u = true ->
+  insecure_from_scheme prev (u_scheme u) = Some (url_insecure u).
+Proof.
+  unfold scheme_plain, insecure_from_scheme, url_insecure. intros H. apply orb_true_iff in H as [H | H].
+  - apply bytes_eqb_eq in H. now rewrite H.
+  - rewrite H. reflexivity.
+Qed.
+Lemma log_opt_insec pr s o : opt_scheme_ok o = true ->
+  l_insec (log_apply_opt pr s o) = keep opt_insecure (l_insec s) o.
+Proof.
+  destruct o; cbn; try reflexivity. unfold keep; cbn. destruct (parse_url u) as [u0|]; [|reflexivity].
+  intros G. destruct pr; cbn; [reflexivity|]. now rewrite insecure_from_scheme_plain.
+Qed.
+Lemma fold_log_field_ok {A} (pr : proto) (p : lset -> option A) (f : opt -> option A) (ok : opt -> bool) :
+  (forall s o, ok o = true -> p (log_apply_opt pr s o) = keep f (p s) o) ->
+  forall l s, forallb ok l = true -> p (fold_left (log_apply_opt pr) l s) = fold_left (keep f) l (p s).
+Proof.
+  intros Hstep. induction l as [|o l IH]; intros s H; cbn; [reflexivity|].
+  cbn in H. apply andb_true_iff in H as [H1 H2]. now rewrite IH, Hstep.
+Qed.
 
 Lemma log_getenv_first {A} (conv : bytes -> option A) spec gen :
   log_getenv conv spec gen = first_of (if present spec then conv spec else None) (if present gen then conv gen else None).
@@ -536,21 +667,61 @@ Proof.
   unfold log_comp, rd_comp, present. destruct v; [discriminate|]. intros _. cbn [is_nil]. now rewrite orb_false_r.
 Qed.
 
+Lemma log_http_insec_rd spec gen :
+  log_getenv log_http_insec spec gen = first_of (rd_insecure spec) (rd_insecure gen).
+Proof. rewrite log_getenv_first. unfold rd_insecure, rd_url, log_http_insec. destruct (present spec), (present gen); reflexivity. Qed.
+Lemma log_grpc_insec_rd spec gen : env_scheme_ok spec = true -> env_scheme_ok gen = true ->
+  log_grpc_insec_ep spec gen = first_of (rd_insecure spec) (rd_insecure gen).
+Proof.
+  unfold log_grpc_insec_ep, rd_insecure, env_scheme_ok, rd_url, present. intros G1 G2.
+  destruct spec as [|c s]; cbn [is_nil negb].
+  - destruct gen as [|d g]; cbn [is_nil negb option_map first_of]; [reflexivity|].
+    destruct (parse_url (d :: g)) as [u|]; [|reflexivity]. cbn. now apply insecure_from_scheme_plain.
+  - destruct (parse_url (c :: s)) as [u|]; cbn [option_map first_of].
+    + now apply insecure_from_scheme_plain.
+    + destruct gen as [|d g]; cbn [is_nil negb option_map]; [reflexivity|].
+      destruct (parse_url (d :: g)) as [u|]; [|reflexivity]. cbn. now apply insecure_from_scheme_plain.
+Qed.
+
 Lemma log_settings pr opts e :
   let c := log_config pr opts e in
-  c_tmo c = exp_tmo opts e /\ c_gzip c = exp_gzip opts e /\ c_hdrs c = exp_hdrs opts e /\ c_host c = exp_host pr opts e.
+  c_tmo c = exp_tmo opts e /\ c_gzip c = exp_gzip pr opts e /\ c_hdrs c = exp_hdrs opts e /\ c_host c = exp_host pr opts e /\
+  (schemes_ok opts e = true -> c_insec c = exp_insecure pr opts e).
 Proof.
-  cbn zeta. unfold log_config. cbn [c_tmo c_gzip c_hdrs c_host].
-  rewrite (fold_log_field pr l_tmo opt_tmo (log_opt_tmo pr)), (fold_log_field pr l_gzip opt_gzip (log_opt_gzip pr)),
-          (fold_log_field pr l_hdrs opt_hdrs (log_opt_hdrs pr)), (fold_log_field pr l_host opt_host (log_opt_host pr)).
-  cbn [lset0 l_tmo l_gzip l_hdrs l_host]. rewrite <- !last_some_fold, !log_getenv_first, !or_resolve.
-  unfold exp_tmo, exp_gzip, exp_hdrs, exp_host, rd_timeout, rd_headers, rd_host, rd_url, log_dur.
-  repeat split.
-  - f_equal.
-    + destruct (present (spec_comp e)) eqn:P; [now rewrite log_comp_rd|]. destruct (spec_comp e); [reflexivity|discriminate].
-    + destruct (present (gen_comp e)) eqn:P; [now rewrite log_comp_rd|]. destruct (gen_comp e); [reflexivity|discriminate].
-  - now rewrite !log_headers_rd.
-  - destruct (present (spec_ep e)), (present (gen_ep e)); reflexivity.
+  cbn zeta.
+  assert (Base : forall s, s = fold_left (log_apply_opt pr) opts lset0 ->
+    l_tmo s = last_some opt_tmo opts /\ l_gzip s = last_some opt_gzip opts /\ l_hdrs s = last_some opt_hdrs opts /\
+    l_host s = last_some opt_host opts /\ l_conn s = last_some opt_conn opts /\
+    (forallb opt_scheme_ok opts = true -> l_insec s = last_some opt_insecure opts)).
+  { intros s ->. rewrite (fold_log_field pr l_tmo opt_tmo (log_opt_tmo pr)), (fold_log_field pr l_gzip opt_gzip (log_opt_gzip pr)),
+      (fold_log_field pr l_hdrs opt_hdrs (log_opt_hdrs pr)), (fold_log_field pr l_host opt_host (log_opt_host pr)),
+      (fold_log_field pr l_conn opt_conn (log_opt_conn pr)).
+    repeat split; try reflexivity. intros G.
+    now rewrite (fold_log_field_ok pr l_insec opt_insecure opt_scheme_ok (log_opt_insec pr) opts lset0 G). }
+  unfold log_config. set (s := fold_left (log_apply_opt pr) opts lset0).
+  destruct (Base s eq_refl) as (B1 & B2 & B3 & B4 & B5 & B6).
+  assert (Ht : or_dflt (or_else (l_tmo s) (log_getenv log_dur (spec_tmo e) (gen_tmo e))) default_timeout_ns = exp_tmo opts e).
+  { rewrite B1, log_getenv_first, or_resolve. reflexivity. }
+  assert (Hg : or_dflt (or_else (l_gzip s) (log_getenv log_comp (spec_comp e) (gen_comp e))) false =
+               resolve (last_some opt_gzip opts) (rd_comp (spec_comp e)) (rd_comp (gen_comp e)) false).
+  { rewrite B2, log_getenv_first, or_resolve. f_equal.
+    - destruct (present (spec_comp e)) eqn:P; [now rewrite log_comp_rd|]. destruct (spec_comp e); [reflexivity|discriminate].
+    - destruct (present (gen_comp e)) eqn:P; [now rewrite log_comp_rd|]. destruct (gen_comp e); [reflexivity|discriminate]. }
+  assert (Hh : or_dflt (or_else (l_hdrs s) (log_getenv log_headers (spec_hdr e) (gen_hdr e))) [] = exp_hdrs opts e).
+  { rewrite B3, log_getenv_first, or_resolve. unfold exp_hdrs, rd_headers. now rewrite !log_headers_rd. }
+  assert (Hho : or_dflt (or_else (l_host s) (log_getenv (fun v => option_map u_host (parse_url v)) (spec_ep e) (gen_ep e))) (default_host pr) =
+                resolve (last_some opt_host opts) (rd_host (spec_ep e)) (rd_host (gen_ep e)) (default_host pr)).
+  { rewrite B4, log_getenv_first, or_resolve. unfold rd_host, rd_url.
+    destruct (present (spec_ep e)), (present (gen_ep e)); reflexivity. }
+  unfold exp_gzip, exp_host, exp_insecure, user_conn.
+  destruct pr; cbn [c_tmo c_gzip c_hdrs c_host c_insec].
+  - repeat split; auto. intros S. destruct (schemes_ok_inv _ _ S) as (S0 & _).
+    rewrite (B6 S0), log_http_insec_rd, or_resolve. reflexivity.
+  - unfold use_conn. cbn [c_conn]. rewrite B5. destruct (last_some opt_conn opts); cbn [c_tmo c_gzip c_hdrs c_host c_insec set_insec set_gzip set_host].
+    + repeat split; auto.
+    + repeat split; auto. intros S. destruct (schemes_ok_inv _ _ S) as (S0 & S1 & S2 & N1 & N2).
+      rewrite (B6 S0), N1, N2, (log_grpc_insec_rd _ _ S1 S2).
+      destruct (last_some opt_insecure opts), (rd_insecure (spec_ep e)), (rd_insecure (gen_ep e)); reflexivity.
 Qed.
 
 Lemma log_path opts e : path_inputs_ok opts e = true ->
@@ -592,8 +763,9 @@ Lemma precedence f pr opts e : env_trimmed e = true ->
   (grpc_guard pr e -> c_host c = exp_host pr opts e) /\
   (pr = PHttp -> path_inputs_ok opts e = true -> path_shape_uniform f opts e = true -> c_path c = exp_path f opts e) /\
   (hdrs_wellformed f e = true -> c_hdrs c = exp_hdrs opts e) /\
-  (comp_wellformed f e = true -> c_gzip c = exp_gzip opts e) /\
-  c_tmo c = exp_tmo opts e.
+  (comp_wellformed f e = true -> c_gzip c = exp_gzip pr opts e) /\
+  c_tmo c = exp_tmo opts e /\
+  (schemes_ok opts e = true -> c_insec c = exp_insecure pr opts e).
 Proof.
   intros T. cbn zeta.
   assert (TM : forall sig, f <> FLog -> sig = sig_path f ->
@@ -601,19 +773,21 @@ Proof.
      (grpc_guard pr e -> c_host c = exp_host pr opts e) /\
      (pr = PHttp -> path_inputs_ok opts e = true -> path_shape_uniform f opts e = true -> c_path c = exp_path f opts e) /\
      (hdrs_wellformed f e = true -> c_hdrs c = exp_hdrs opts e) /\
-     (comp_wellformed f e = true -> c_gzip c = exp_gzip opts e) /\
-     c_tmo c = exp_tmo opts e).
-  { intros sig Hf ->. destruct (tm_settings pr (sig_path f) opts e T) as (Ht & Hg & Hh & Hhost). cbn zeta.
+     (comp_wellformed f e = true -> c_gzip c = exp_gzip pr opts e) /\
+     c_tmo c = exp_tmo opts e /\
+     (schemes_ok opts e = true -> c_insec c = exp_insecure pr opts e)).
+  { intros sig Hf ->. destruct (tm_settings pr (sig_path f) opts e T) as (Ht & Hg & Hh & Hhost & Hins). cbn zeta.
     destruct (sig_tidy f) as [S1 S2]. repeat split; auto.
     - intros Hp G S. unfold exp_path. apply tm_path; auto. unfold path_shape_uniform in S. destruct f; congruence.
     - intros W. rewrite Hh. unfold exp_hdrs, hdrs_wellformed in *. destruct f; try congruence;
         apply andb_true_iff in W as [W1 W2]; now rewrite (doc_headers_wf _ W1), (doc_headers_wf _ W2).
-    - intros W. rewrite Hg. unfold exp_gzip, comp_wellformed in *. destruct f; try congruence;
+    - intros W. rewrite Hg. unfold exp_gzip, comp_wellformed in *. destruct (user_conn pr opts); [reflexivity|].
+      destruct f; try congruence;
         apply andb_true_iff in W as [W1 W2]; now rewrite (doc_comp_wf _ W1), (doc_comp_wf _ W2). }
   destruct f.
   - apply (TM (sig_path FTrace)); [discriminate|reflexivity].
   - apply (TM (sig_path FMetric)); [discriminate|reflexivity].
-  - unfold exporter_config. destruct (log_settings pr opts e) as (Ht & Hg & Hh & Hhost).
+  - unfold exporter_config. destruct (log_settings pr opts e) as (Ht & Hg & Hh & Hhost & Hins).
     repeat split; auto. intros -> G _. now apply log_path.
 Qed.
 
@@ -638,7 +812,7 @@ Proof. unfold grpc_target_plain. now rewrite rd_blank. Qed.
 
 Lemma exp_scrub pr opts e :
   exp_tmo opts (scrub e) = exp_tmo opts e /\ exp_host pr opts (scrub e) = exp_host pr opts e /\
-  exp_gzip opts (scrub e) = exp_gzip opts e /\ exp_hdrs opts (scrub e) = exp_hdrs opts e.
+  exp_gzip pr opts (scrub e) = exp_gzip pr opts e /\ exp_hdrs opts (scrub e) = exp_hdrs opts e.
 Proof.
   unfold exp_tmo, exp_host, exp_gzip, exp_hdrs, scrub. cbn.
   now rewrite !rd_host_blank, !(rd_blank rd_timeout), !(rd_blank rd_comp), !(rd_blank rd_headers).
@@ -657,12 +831,15 @@ Lemma invalid_ignored f pr opts e : env_trimmed e = true -> grpc_guard pr e ->
   c_tmo c = c_tmo c' /\ c_host c = c_host c' /\
   (f = FLog -> c_gzip c = c_gzip c' /\ c_hdrs c = c_hdrs c') /\
   (f <> FLog ->
-   c_gzip c = resolve (last_some opt_gzip opts) (doc_comp (spec_comp e)) (doc_comp (gen_comp e)) false /\
+   c_gzip c = match user_conn pr opts with
+              | Some _ => false
+              | None => resolve (last_some opt_gzip opts) (doc_comp (spec_comp e)) (doc_comp (gen_comp e)) false
+              end /\
    c_hdrs c = resolve (last_some opt_hdrs opts) (doc_headers (spec_hdr e)) (doc_headers (gen_hdr e)) []).
 Proof.
   intros T G. cbn zeta.
-  destruct (precedence f pr opts e T) as (H1 & _ & H3 & H4 & H5).
-  destruct (precedence f pr opts (scrub e) (scrub_trimmed _ T)) as (H1' & _ & H3' & H4' & H5').
+  destruct (precedence f pr opts e T) as (H1 & _ & H3 & H4 & H5 & _).
+  destruct (precedence f pr opts (scrub e) (scrub_trimmed _ T)) as (H1' & _ & H3' & H4' & H5' & _).
   destruct (exp_scrub pr opts e) as (E1 & E2 & E3 & E4).
   destruct (wellformed_scrub f e) as [W1 W2].
   assert (G' : grpc_guard pr (scrub e)).
@@ -701,15 +878,15 @@ Qed.
 
 (** ** the recorded non-uniformities: the unguarded statements are false *)
 Definition env0 : env :=
-  {| gen_ep := []; spec_ep := []; gen_hdr := []; spec_hdr := []; gen_comp := []; spec_comp := []; gen_tmo := []; spec_tmo := [] |}.
+  {| gen_ep := []; spec_ep := []; gen_hdr := []; spec_hdr := []; gen_comp := []; spec_comp := []; gen_tmo := []; spec_tmo := []; gen_insec := []; spec_insec := [] |}.
 Definition env_f2 : env :=
-  {| gen_ep := str "http://h/"; spec_ep := []; gen_hdr := []; spec_hdr := []; gen_comp := []; spec_comp := []; gen_tmo := []; spec_tmo := [] |}.
+  {| gen_ep := str "http://h/"; spec_ep := []; gen_hdr := []; spec_hdr := []; gen_comp := []; spec_comp := []; gen_tmo := []; spec_tmo := []; gen_insec := []; spec_insec := [] |}.
 Definition env_f3 : env :=
-  {| gen_ep := []; spec_ep := str "http://h/custom/"; gen_hdr := []; spec_hdr := []; gen_comp := []; spec_comp := []; gen_tmo := []; spec_tmo := [] |}.
+  {| gen_ep := []; spec_ep := str "http://h/custom/"; gen_hdr := []; spec_hdr := []; gen_comp := []; spec_comp := []; gen_tmo := []; spec_tmo := []; gen_insec := []; spec_insec := [] |}.
 Definition env_f4 : env :=
-  {| gen_ep := []; spec_ep := []; gen_hdr := []; spec_hdr := []; gen_comp := gzip_name; spec_comp := str "zstd"; gen_tmo := []; spec_tmo := [] |}.
+  {| gen_ep := []; spec_ep := []; gen_hdr := []; spec_hdr := []; gen_comp := gzip_name; spec_comp := str "zstd"; gen_tmo := []; spec_tmo := []; gen_insec := []; spec_insec := [] |}.
 Definition env_f5 : env :=
-  {| gen_ep := []; spec_ep := []; gen_hdr := str "a=gen"; spec_hdr := str "garbage"; gen_comp := []; spec_comp := []; gen_tmo := []; spec_tmo := [] |}.
+  {| gen_ep := []; spec_ep := []; gen_hdr := str "a=gen"; spec_hdr := str "garbage"; gen_comp := []; spec_comp := []; gen_tmo := []; spec_tmo := []; gen_insec := []; spec_insec := [] |}.
 
 (** F-C20-2 is repaired (19c40b9): the old witness now satisfies the uniform statement. *)
 Lemma log_generic_trailing_slash_fixed :
@@ -726,8 +903,8 @@ Proof. exists env_f3. repeat split; vm_compute; congruence. Qed.
 
 Lemma tm_unknown_compression_refuted :
   exists e, env_trimmed e = true /\
-            c_gzip (exporter_config FTrace PHttp [] e) <> exp_gzip [] e /\
-            c_gzip (exporter_config FLog PHttp [] e) = exp_gzip [] e.
+            c_gzip (exporter_config FTrace PHttp [] e) <> exp_gzip PHttp [] e /\
+            c_gzip (exporter_config FLog PHttp [] e) = exp_gzip PHttp [] e.
 Proof. exists env_f4. repeat split; vm_compute; congruence. Qed.
 
 Lemma tm_malformed_headers_refuted :
@@ -761,6 +938,21 @@ Proof.
   destruct (b_opt_queue i) as [oq|], (b_opt_batch i) as [ob|];
     destruct (rd_int (b_env_queue i)) as [eq|], (rd_int (b_env_batch i)) as [eb|]; cbn [get_or];
     split_ifs; lia.
+Qed.
+
+Lemma bsp_batch_pinned i b :
+  bsp_batch_expected i (bo_queue (bsp_config i)) = Some b -> bo_batch (bsp_config i) = b.
+Proof.
+  destruct (bsp_ok i) as [H _]. cbn zeta in H. revert H.
+  generalize (bo_queue (bsp_config i)) as q, (bo_batch (bsp_config i)) as bb. intros q bb.
+  unfold bsp_sizes_ok, bsp_batch_expected, nonneg.
+  destruct (b_opt_batch i) as [x|].
+  - intros H [= <-]. split_ifs; lia.
+  - destruct (rd_int (b_env_batch i)) as [x|]; destruct (get_or (rd_int (b_env_queue i)) 2048 <? 0) eqn:E;
+      intros H Hb; try discriminate.
+    + destruct ((0 <=? x) && (x <=? get_or (rd_int (b_env_queue i)) 2048)) eqn:E2; [|discriminate].
+      injection Hb as <-. lia.
+    + injection Hb as <-. lia.
 Qed.
 
 Lemma bsp_nonneg i :
